@@ -316,7 +316,7 @@ fn fuzz_campaign(root: &std::path::Path, id: &str, target: &str, seed: u64) -> R
         .arg(target)
         .arg(&corpus)
         .arg("--")
-        .args([format!("-runs={}", runs), format!("-seed={}", if seed == 0 { 1 } else { seed }), "-len_control=0".into(), "-max_len=2048".into(), format!("-jobs={}", jobs), format!("-workers={}", jobs), "-print_final_stats=1".into(), format!("-artifact_prefix={}/", art.display())])
+        .args([format!("-runs={}", runs), format!("-seed={}", if seed == 0 { 1 } else { seed }), "-len_control=0".into(), "-max_len=2048".into(), format!("-jobs={}", jobs), format!("-workers={}", jobs), "-print_final_stats=1".into(), "-timeout=120".into(), format!("-artifact_prefix={}/", art.display())])
         .stdout(std::process::Stdio::null())
         .stderr(std::process::Stdio::piped())
         .output()
@@ -348,6 +348,22 @@ fn fuzz_campaign(root: &std::path::Path, id: &str, target: &str, seed: u64) -> R
             artifacts.push(e.file_name().to_string_lossy().to_string());
             let saved = unsafe { libc::dup(1) };
             sqverif::run::install_quiet_panic_hook();
+            // an artifact libFuzzer saved because the input never finished: decided by the load-independent watchdog
+            {
+                let (idc, rootc) = (id.to_string(), root.to_path_buf());
+                sqverif::run::set_saved_stdout(saved);
+                sqverif::run::install_watchdog(Box::new(move |opts, data, verdict| {
+                    let hex: String = data.iter().map(|b| format!("{:02x}", b)).collect();
+                    let path = rootc.join("replays").join(format!("{}-hang-{:016x}.json", idc, ctx::hash_of(&hex)));
+                    let body = serde_json::json!({"property": idc, "msg": format!("the reader never finished a finite file ({})", verdict), "sig": "c01:hang", "case": {"kind": "hang", "opts": opts, "hex": hex, "verdict": verdict}});
+                    let _ = std::fs::write(&path, serde_json::to_vec_pretty(&body).unwrap());
+                    let line = if idc == "C01" { format!("VIOLATION property={} replay={}\n  detail: libFuzzer artifact: the reader never finished a finite file ({})\n", idc, path.display(), verdict) } else { format!("INCONCLUSIVE: a libFuzzer artifact wedges the reader thread ({}); termination is C01's property\n", verdict) };
+                    if let Some(fd) = sqverif::run::saved_stdout() {
+                        unsafe { libc::write(fd, line.as_ptr() as *const libc::c_void, line.len()) };
+                    }
+                    std::process::exit(if idc == "C01" { 1 } else { 2 });
+                }));
+            }
             sqverif::run::silence_stdout();
             let r = if target == "fz_line" { sqverif::fuzz_entry::check_line_bytes(&data) } else { sqverif::fuzz_entry::check_stream_bytes(&data) };
             unsafe {
